@@ -9,6 +9,7 @@ from __future__ import annotations
 import ast
 import builtins
 import collections
+import enum
 import hashlib
 import importlib
 import inspect
@@ -78,6 +79,7 @@ class ModIndex:
         self.sha = hashlib.sha256(data).hexdigest()
         self.tree = ast.parse(data)
         self.defs = {}
+        self.by_line = {}
         self.classes = {}
         self._walk(self.tree.body, "")
 
@@ -85,6 +87,9 @@ class ModIndex:
         for node in body:
             if isinstance(node, (ast.FunctionDef, ast.AsyncFunctionDef)):
                 self.defs.setdefault(prefix + node.name, node)
+                self.by_line[(prefix + node.name, node.lineno)] = node
+                for d in node.decorator_list:
+                    self.by_line[(prefix + node.name, d.lineno)] = node
             elif isinstance(node, ast.ClassDef):
                 self.classes.setdefault(prefix + node.name, node)
                 self._walk(node.body, prefix + node.name + ".")
@@ -119,7 +124,10 @@ def func_node(live_fn):
     if mod is None or not in_repo(mod):
         return None, None
     idx = mod_index(mod)
-    node = idx.defs.get(live_fn.__qualname__)
+    code = getattr(live_fn, "__code__", None)
+    node = idx.by_line.get((live_fn.__qualname__, code.co_firstlineno)) if code is not None else None
+    if node is None:
+        node = idx.defs.get(live_fn.__qualname__)
     if node is None:
         return None, None
     return node, mod
@@ -286,6 +294,7 @@ class Interp:
         self.cut_at = None
         self.override_calls = {}
         self.override_log = []
+        self.codec = None
         self.field_invs = field_invs or {}
 
     # ------------------------------------------------------------------ values
@@ -331,7 +340,7 @@ class Interp:
             v = SFunc(obj)
         else:
             addr = 1000000 + len(c.reflect_cache)
-            v = SObj(z3.IntVal(addr), [type(obj)], getattr(obj, "__name__", type(obj).__name__), lazy=False, live=obj)
+            v = SObj(z3.IntVal(addr), [type(obj)], type(obj).__name__, lazy=False, live=obj)
         c.reflect_cache[key] = (obj, v)
         return v
 
@@ -372,8 +381,13 @@ class Interp:
             if not ty.pure:
                 raise Unsupported(f"impure z3 container {ty}")
             return ZVal(ty, Cell(c.fresh(name, ty.sort())))
+        if isinstance(ty, TObj) and isinstance(ty.cls, type) and issubclass(ty.cls, enum.Enum):
+            members = list(ty.cls)
+            if not members:
+                raise Unsupported(f"enum {ty.cls.__name__} without members")
+            return self.reflect(members[c.choose(len(members), "enum-member")])
         if isinstance(ty, TObj):
-            cands = [k for k in all_subclasses(ty.cls)]
+            cands = [k for k in all_subclasses(ty.cls) if k not in getattr(ty, "exclude", ())]
             addr = c.fresh(name + "@", IntS)
             c.assume(addr >= 1)
             return SObj(addr, cands, c.fresh_name(name), lazy=True)
@@ -443,6 +457,10 @@ class Interp:
 
     def eq(self, a, b):
         """z3 Bool for a == b"""
+        if isinstance(a, SBitInt) or isinstance(b, SBitInt):
+            x, y = (a, b) if isinstance(a, SBitInt) else (b, a)
+            if isinstance(y, (SInt, SBool)) and concrete_int(as_int(y)) == 0:
+                return z3.Not(z3.Or(list(x.bits.values()) + [z3.BoolVal(False)]))
         if isinstance(a, SOpt) or isinstance(b, SOpt):
             if isinstance(a, SOpt) and isinstance(b, SOpt):
                 return z3.Or(z3.And(a.isnone, b.isnone), z3.And(z3.Not(a.isnone), z3.Not(b.isnone), self.eq(a.val, b.val)))
@@ -498,6 +516,9 @@ class Interp:
             if any(has_repo_dunder(k, "__eq__") for k in o.cands):
                 other = b if o is a else a
                 r = self.call_method(o, "__eq__", [other])
+                if isinstance(r, SObj) and r.live is NotImplemented:
+                    # reflected comparison not modelled: Python falls back to identity
+                    return a.addr == b.addr if isinstance(a, SObj) and isinstance(b, SObj) else z3.BoolVal(False)
                 return self.truth(r)
             if isinstance(a, SObj) and isinstance(b, SObj):
                 return a.addr == b.addr
@@ -572,6 +593,13 @@ class Interp:
         """value equal to a if c else b, or MergeAbort"""
         if a is b:
             return a
+        ca_, cb_ = (concrete_int(a.t), concrete_int(b.t)) if isinstance(a, SInt) and isinstance(b, SInt) else (None, None)
+        accumulating = ca_ is not None and cb_ is not None and 0 <= ca_ < 2 ** 64 and 0 <= cb_ < 2 ** 64 and ca_ != cb_ and (ca_ & cb_) == min(ca_, cb_)
+        if isinstance(a, SInt) and isinstance(b, SInt) and (isinstance(a, SBitInt) or isinstance(b, SBitInt) or accumulating):
+            ba, bb = as_bits(a), as_bits(b)
+            if ba is not None and bb is not None:
+                F = z3.BoolVal(False)
+                return SBitInt({k: simp(z3.If(c, ba.get(k, F), bb.get(k, F))) for k in set(ba) | set(bb)})
         if isinstance(a, (SInt, SBool)) and isinstance(b, (SInt, SBool)):
             if isinstance(a, SBool) and isinstance(b, SBool):
                 return SBool(simp(z3.If(c, a.t, b.t)))
@@ -710,11 +738,16 @@ class Interp:
     def obj_getattr(self, o, name, node=None):
         if name in o.fields:
             return o.fields[name]
+        if self.codec is not None and name == "write" and o is not self.codec.root and o.live is None:
+            return SCodecWrite(o)  # nested serializable object: modular (no split over its classes)
         if name == "__class__":
             if len(o.cands) == 1:
                 return SFunc(o.cands[0])
             raise Unsupported("__class__ of object with several candidate classes")
         if o.live is not None:
+            if has_repo_dunder(type(o.live), "__getattribute__") and name != "__class__":
+                # e.g. nodes.FakeInfo: every attribute access fails by design
+                self.raise_exc(AssertionError, f"attribute {name} of {type(o.live).__name__}", node)
             st = inspect.getattr_static(o.live, name, MISSING)
             if st is MISSING:
                 self.raise_exc(AttributeError, name, node)
@@ -813,6 +846,13 @@ class Interp:
             from .builtins_model import call_builtin
 
             return call_builtin(self, live, args, kwargs, node)
+        if isinstance(f, SCodecWrite):
+            from .codec import SBuf
+
+            if not args or not isinstance(args[0], SBuf):
+                raise Unsupported("write() of a nested object without a buffer")
+            args[0].put(("obj", f.obj))
+            return NONE
         if isinstance(f, SBuiltinMethod):
             from .builtins_model import call_method_model
 
@@ -835,6 +875,10 @@ class Interp:
             ov = self.overrides.get(live.__qualname__)
         if self.depth > 0 and (qn + "@rec") in self.overrides:
             ov = self.overrides[qn + "@rec"]
+        if self.codec is not None and ov is None:
+            r = self.codec_call(live, qn, args, kwargs)
+            if r is not None:
+                return r
         if ov is not None:
             self.override_calls[qn] = self.override_calls.get(qn, 0) + 1
             try:
@@ -853,6 +897,46 @@ class Interp:
 
             return call_builtin(self, live, args, kwargs, node)
         return self.run_function(fnode, mod, args, kwargs, live=live)
+
+    def codec_call(self, live, qn, args, kwargs):
+        """modular treatment of nested serializable objects"""
+        from .codec import SBuf
+
+        cd = self.codec
+        name = live.__name__
+        if name == "write" and len(args) >= 2 and isinstance(args[1], SBuf) and isinstance(args[0], SObj):
+            if args[0] is cd.root and not cd.root_write_started:
+                cd.root_write_started = True
+                return None
+            args[1].put(("obj", args[0]))
+            return NONE
+        is_reader = (name == "read" and len(args) >= 2 and isinstance(args[1], SBuf)) or qn in cd.nested_readers
+        if is_reader:
+            buf = next((a for a in args if isinstance(a, SBuf)), None)
+            if buf is None:
+                return None
+            if name == "read" and not cd.root_read_started:
+                cd.root_read_started = True
+                return None
+            t = buf.peek()
+            has_tag_arg = qn in cd.nested_readers and (len(args) >= 2 or "tag" in kwargs) and not isinstance(args[-1], SBuf)
+            if t is None or t[0] not in ("obj", "objbody"):
+                from .interp import PyExc as _P
+                from .codec import LayoutMismatch
+
+                raise _P(LayoutMismatch, None, f"nested reader {qn} where the writer put {t[0] if t else 'nothing'}", "")
+            buf.pos += 1
+            o = t[1]
+            if name == "read" and isinstance(args[0], SFunc) and isinstance(args[0].live, type) and isinstance(o, SObj):
+                keep = [k for k in o.cands if issubclass(k, args[0].live)]
+                if not keep:
+                    from .codec import LayoutMismatch
+
+                    raise PyExc(LayoutMismatch, None, f"{args[0].live.__name__}.read applied to the tokens of {o.cands[0].__name__}", "")
+                if len(keep) != len(o.cands):
+                    self.ctx.oblige("codec/nested-class-matches-reader", z3.BoolVal(False), kind="codec", where=qn)
+            return o
+        return None
 
     def bind_args(self, fnode, args, kwargs, defaults_from, frame):
         a = fnode.args
@@ -1427,6 +1511,8 @@ class Interp:
                     continue
             self.exec_block(s.orelse, frame)
             return
+        if self.codec is not None and spec is None:
+            return self.codec_for(s, frame, it)
         length, elem = self.iter_symbolic(it)
         if spec is not None:
             return self.for_invariant(s, frame, spec, key, length, elem)
@@ -1474,6 +1560,57 @@ class Interp:
         if not c.is_sat():
             raise Infeasible()
         self.exec_block(s.orelse, frame)
+
+    def codec_for(self, s, frame, it):
+        """lock-step rule for a statement loop over a collection of unknown length"""
+        from .codec import SBuf, same_value, DictItems
+
+        cd = self.codec
+        if isinstance(it, SIterable) and it.what == "range" and cd.buffers(frame, reading=True):
+            # reader loop: `for _ in range(n): <reads>; result.append(v)`
+            start, stop, step = it.payload
+            before = {n: (v, len(v.items)) for n, v in frame.locals.items() if isinstance(v, SList)}
+
+            def body():
+                self.assign(s.target, SInt(self.ctx.fresh("loop_ix", IntS)), frame)
+                self.exec_block(s.body, frame)
+                grown = [(n, v) for n, (v, k) in before.items() if len(v.items) == k + 1]
+                if len(grown) != 1 or any(len(v.items) != k for n, (v, k) in before.items() if (n, v) not in grown):
+                    raise Unsupported("lock-step reader loop must append exactly one element to one list")
+                return grown[0]
+
+            coll, elem, (name, lst) = cd.reader_block(frame, stop.t - start.t, body, s)
+            val = lst.items.pop()
+            if lst.items:
+                raise Unsupported("lock-step reader loop appends to a non-empty list")
+            frame.locals[name] = cd.lift(coll, elem, val)
+            return
+        if cd.buffers(frame, reading=False) and writes_buffer(s.body):
+            return cd.writer_loop(s, frame, it)
+        # a scan over a collection of unknown length: executed once on the canonical generic element.
+        # Allowed effects: raising (asserts), and appending exactly one element per iteration to one
+        # list that was empty before the loop (then the list IS the mapped collection).
+        coll = cd.as_collection(it, frame)
+        k, elem, n = cd.generic_of(coll)
+        before = {nm: (v, len(v.items)) for nm, v in frame.locals.items() if isinstance(v, SList)}
+        snapshot = dict(frame.locals)
+        self.assign(s.target, elem, frame)
+        try:
+            self.exec_block(s.body, frame)
+        except (BreakSig, ContinueSig):
+            raise Unsupported("break/continue in a lock-step scan loop")
+        grown = [(nm, v) for nm, (v, k0) in before.items() if len(v.items) != k0]
+        changed = [nm for nm, v in frame.locals.items() if nm in snapshot and snapshot[nm] is not v and nm not in (getattr(s.target, "id", None),) and nm not in assigned_names_direct([s.target])]
+        loop_locals = assigned_names_direct(s.body)
+        changed = [nm for nm in changed if nm not in loop_locals or nm in snapshot and not _is_temp(nm, s)]
+        if len(grown) == 1 and len(grown[0][1].items) == before[grown[0][0]][1] + 1 and before[grown[0][0]][1] == 0:
+            nm, lst = grown[0]
+            val = lst.items.pop()
+            frame.locals[nm] = cd.lift(coll, elem, val)
+        elif grown:
+            raise Unsupported("lock-step scan loop with an unsupported list effect")
+        if s.orelse:
+            self.exec_block(s.orelse, frame)
 
     # ---- iteration helpers
     def try_iter_concrete(self, it):
@@ -1699,7 +1836,7 @@ class Interp:
                         v = self.eval(x, frame)
                         t = simp(self.truth(v))
                         vals.append((v, t))
-                        g = t if isand else z3.Not(t)
+                        g = simp(t if isand else z3.Not(t))
                         if z3.is_false(g):
                             break
                         c.guards.append(g)
@@ -1873,9 +2010,34 @@ class Interp:
 MISSING = object()
 
 
+def writes_buffer(body):
+    """does the loop body (syntactically) call a write* function / method?"""
+    for st in body:
+        for n in ast.walk(st):
+            if isinstance(n, ast.Call):
+                f = n.func
+                name = f.id if isinstance(f, ast.Name) else f.attr if isinstance(f, ast.Attribute) else ""
+                if name.startswith("write"):
+                    return True
+    return False
+
+
+def _is_temp(name, loop):
+    return True
+
+
 def _object_noop(*a, **k):
     """object.__init__ and friends"""
     return None
+
+
+class SCodecWrite(V):
+    """bound `write` of a nested serializable object in a codec proof"""
+
+    kind = "codecwrite"
+
+    def __init__(self, obj):
+        self.obj = obj
 
 
 class SSuper(V):
